@@ -292,7 +292,7 @@ pub fn run(opts: &Opts) -> i32 {
             spec.enumerated.push(Case::Sparse { n, cn: 1.0, rho: 1.0, phi: 0.0, complex_field, tol_exp: 1.0 });
         }
     }
-    spec.cases = opts.tier.pick(40_000, 1_500_000);
+    spec.cases = opts.tier.pick(400_000, 10_000_000);
     spec.exhaustive = Some("orthogonal-polynomial zeros: Legendre and Hermite n=0..16, Laguerre n=0..12".into());
     spec.essential = vec![("sparse", 0.1), ("conjugate-pairs", 0.15), ("complex-coeffs", 0.2), ("real-field", 0.2), ("deg10", 0.03)];
     spec.rule = "generated: polynomials of degree 1-10 expanded in the harness from roots placed by grid construction (pairwise separation >= 0.3, |z| <= 3): real roots, conjugate pairs (real coefficients, also passed through the complex field) and arbitrary complex roots, leading coefficient +-10^[-1,1]; sparse class c_n x^n - c_0 (n=3..10) set through set_coefficient; tolerance log-uniform from 10x the evaluation noise floor 4 n eps sum|c_k|3^k up to 1e-6 (above it when the floor is larger); n_max = 200. Oracle: Ok required, exactly deg results, greedy one-to-one matching within 2 tol max(1, 2/min|p'(r_i)|) + 1e-9, conjugation closure for real coefficients. Enumerated: zeros of Legendre/Hermite (n<=16) and Laguerre (n<=12) against zeros bracketed and bisected on the three-term recurrences in the harness (1e-8). Non-trivial = degree >= 3, or sparse, or zeros with n >= 2. Distinct = distinct case JSON.".into();
